@@ -144,6 +144,19 @@ Theorem C14_pdf_codec_is_last_stage :
 Proof. intros tbl pre c. exact (conj (pdf_codec_last pre c) (pdf_content_type_last tbl pre c)). Qed.
 Print Assumptions C14_pdf_codec_is_last_stage.
 
+(* reading a member (read_zip_member: getinfo + open + read): the bytes belong to an entry of exactly that name; a member
+   is readable iff `exists` finds it; with DUPLICATE names it is the last entry of the archive's directory that is read *)
+Theorem C14_zip_read_by_name :
+  forall (B : Type) (entries : list (str * B)) (p : str),
+    (forall b, zip_read entries p = Some b -> In (p, b) entries)
+    /\ ((exists b, zip_read entries p = Some b) <-> member_of (map fst entries) p = Some p)
+    /\ (forall pre post b, entries = pre ++ (p, b) :: post -> ~ In p (map fst post) -> zip_read entries p = Some b).
+Proof.
+  intros B entries p. split; [intros b; exact (zip_read_exact entries p b)|].
+  split; [exact (zip_read_member entries p)|]. intros pre post b -> H. exact (zip_read_last pre post p b H).
+Qed.
+Print Assumptions C14_zip_read_by_name.
+
 (* ================= 2. header sniffers ================= *)
 Open Scope Z_scope.
 
@@ -313,6 +326,17 @@ Theorem C14_odt_numbers :
     map fst (odt_images names u) = zseq 0 (List.length (odt_images names u)).
 Proof. exact odt_images_numbers. Qed.
 Print Assumptions C14_odt_numbers.
+
+(* ODT never returns more records than the body has picture frames: the inner frame of a captioned picture, which
+   the second pass walks again, is skipped because the first pass recorded its href under the same (raw) spelling *)
+Theorem C14_odt_no_second_copy :
+  forall (names : list str) (u : list placement), (List.length (odt_images names u) <= List.length u)%nat.
+Proof. exact odt_images_length. Qed.
+Print Assumptions C14_odt_no_second_copy.
+Example C14_odt_captioned_dot_href_once :
+  odt_images [s "Pictures/b.png"] [(s "./Pictures/b.png", 1)] = [(1, s "Pictures/b.png")].
+Proof. vm_compute. reflexivity. Qed.
+Print Assumptions C14_odt_captioned_dot_href_once.
 
 (* ODG: one de-duplicating pass, a record for every distinct href — numbers are 1..n *)
 Theorem C14_odg_numbers :
